@@ -19,8 +19,18 @@ import (
 )
 
 type logT struct {
-	mu  sync.Mutex
-	evs []string
+	mu    sync.Mutex
+	evs   []string
+	t0    time.Time // set (before Start) when the run keeps a timed log
+	timed []string  // [code, k, ns since t0] of schedule steps (7, 8) and function starts (1)
+}
+
+func (l *logT) addT(code, k int) {
+	l.mu.Lock()
+	if !l.t0.IsZero() {
+		l.timed = append(l.timed, kit.List(kit.I(code), kit.I(k), kit.I(int64(time.Since(l.t0)))))
+	}
+	l.mu.Unlock()
 }
 
 func (l *logT) add(e string) {
@@ -55,12 +65,14 @@ func installHooks(lg *logT, firsts *atomic.Int64) {
 		switch {
 		case strings.HasSuffix(p, ".startFirst"):
 			hooksSeen.Add(1)
+			lg.addT(7, 0)
 			lg.add("[7]")
 			if firsts != nil {
 				firsts.Add(1)
 			}
 		case strings.HasSuffix(p, ".startNext"):
 			hooksSeen.Add(1)
+			lg.addT(8, 0)
 			lg.add("[8]")
 		}
 	})
@@ -151,12 +163,18 @@ func one(o *kit.Out, r *kit.Rand) {
 	// a slow later schedule behind a fast first one: a tick of the fast ticker that is still
 	// pending when the slow schedule starts must not be taken for a tick of the slow one
 	slowLater := r.Chance(40)
+	// the second schedule far behind the first: a Restart then arrives while the runner is on
+	// its first schedule, and must push the second schedule's start out again
+	farSecond := r.Chance(35)
 	for k := 0; k < ns; k++ {
 		f := time.Duration(2+3*k+r.Intn(2)) * time.Millisecond // distinct per schedule
 		if slowLater && k > 0 {
 			f = time.Duration(40+15*k+r.Intn(5)) * time.Millisecond
 		}
 		d := time.Duration(r.Range(8, 30)) * time.Millisecond
+		if farSecond && k == 1 {
+			d = time.Duration(r.Range(60, 90)) * time.Millisecond
+		}
 		if k == 0 {
 			d = time.Duration(r.Range(0, 3)) * time.Millisecond
 		}
@@ -186,6 +204,7 @@ func one(o *kit.Out, r *kit.Rand) {
 			k = 99
 		}
 		at := time.Since(t0)
+		lg.addT(1, k)
 		lg.add(kit.List("1", kit.I(k)))
 		startsMu.Lock()
 		starts = append(starts, kit.List(kit.I(k), kit.I(int64(at))))
@@ -210,6 +229,7 @@ func one(o *kit.Out, r *kit.Rand) {
 	}
 	before := goleak.IgnoreCurrent()
 	t0 = time.Now() // before New: the first schedule's start-delay timer is armed there
+	lg.t0 = t0
 	rn, err := raterun.New(fn, sched)
 	if err != nil {
 		o.Fail("c18-new", "raterun.New failed")
@@ -334,4 +354,12 @@ func one(o *kit.Out, r *kit.Rand) {
 	startsMu.Unlock()
 	o.Count("profile", map[bool]string{true: "slow schedule behind a fast one, overrunning function", false: "fast schedules"}[slowLater])
 	o.Case("runner_times_ok", []string{kit.Ints(delays), kit.Ints(freqs), kit.Ints(restartCalls), kit.List(st...)}, "T", append(tags, "times")...)
+	// the same, exactly along the run: every schedule step and function start against the instant
+	// its schedule was started (needs the hooks)
+	if hooked || !invoked {
+		lg.mu.Lock()
+		timed := append([]string(nil), lg.timed...)
+		lg.mu.Unlock()
+		o.Case("runner_timed_ok", []string{kit.Ints(delays), kit.Ints(freqs), kit.List(timed...)}, "T", append(tags, "timed")...)
+	}
 }
